@@ -5,7 +5,8 @@
    interleavings of application writes / EOF / close on the sending side, pause / resume (with
    the session pausing again after any number of deliveries) on the receiving side, and delivery
    of the next packet on either wire. *)
-From AV Require Import Base.Prelude Model.Channel Proofs.ChannelProofs Proofs.ChannelEofProofs.
+From AV Require Import Base.Prelude Model.Channel Model.MultiChannel Proofs.ChannelProofs Proofs.ChannelEofProofs
+  Proofs.MultiChannelProofs.
 
 (* Safety, every reachable state: the byte sequence (with its data types) handed to the receiving
    session, followed by what is still buffered at the receiver, in flight, and buffered at the
@@ -55,6 +56,30 @@ Print Assumptions C07_eof_only_if_signalled.
    a theorem: when the sender closes while its EOF is still queued behind unsent data, or the peer's
    CLOSE overtakes a pending EOF at a paused receiver, asyncssh subsumes the EOF in the close
    notification (modelled faithfully; this is why the counting invariant is an inequality). *)
+
+(* Any number of channels at once: the channels of a connection share its two FIFO wires and packets are
+   dispatched by channel number (Model/MultiChannel.v).  For every interleaving of the channels'
+   operations and every delivery order, each channel's private view is a reachable state of the
+   single-channel system - so everything above holds per channel; in particular its data is conserved. *)
+Theorem C07_multi_channel : forall strict window pktsize ms,
+  (forall i, 1 <= window i) -> (forall i, 1 <= pktsize i) -> Forall mhonest ms ->
+  forall j, let c := mrun strict window pktsize ms in
+  toks_data (c_written c j) =
+    toks_data (r_out (c_rcv c j)) ++ buf_data (r_buf (c_rcv c j)) ++ pkts_data (sel j (c_fwd c))
+    ++ buf_data (s_buf (c_snd c j)).
+Proof. exact multi_channel_conservation. Qed.
+Print Assumptions C07_multi_channel.
+
+(* Text mode: for any incremental decoder obeying dec s (a ++ b) = dec (state after a) b with outputs
+   concatenated (the law Python's incremental codecs provide; trusted), two packetisations of the same
+   byte stream - e.g. a multi-byte character split across packets - decode to the same characters. *)
+Theorem C07_text : forall (C S : Type) (dec : S -> bytes -> S * list C),
+  (forall s a b, dec s (a ++ b) = let '(s1, o1) := dec s a in let '(s2, o2) := dec s1 b in (s2, o1 ++ o2)) ->
+  (forall s, dec s [] = (s, [])) ->
+  forall s chunks1 chunks2, concat chunks1 = concat chunks2 ->
+  dec_chunks C S dec s chunks1 = dec_chunks C S dec s chunks2.
+Proof. exact text_segmentation_independent. Qed.
+Print Assumptions C07_text.
 
 Example C07_example :
   let y := run true 4 3 [OWrite 0 [1;2;3;4;5;6;7]; OPause; ODeliverFwd; ODeliverFwd; OEof; OResume None;
